@@ -14,6 +14,8 @@ def guardR (b : Bool) : R Unit := if b then .ok () else .error .err
 /-- `CreatePool` -/
 def createPool (s : St) (signer sym : String) (nAmt eAmt : Nat) : R St := do
   guardR (decide (poolThreshold ≤ nAmt))
+  -- `sdk.NewCoins(external, native)` panics on duplicate denominations
+  guardR (sym ≠ rowan)
   guardR (s.params.registered.contains sym)
   guardR (!(s.pools.contains (poolKey sym)))
   let u ← liftM (calculatePoolUnits 0 0 0 nAmt eAmt (feeRate s.params rowan) (feeRate s.params sym) s.params.r)
@@ -23,16 +25,16 @@ def createPool (s : St) (signer sym : String) (nAmt eAmt : Nat) : R St := do
   let s2 ← optR (send s1 signer clpAcct rowan nAmt)
   let pool : Pool := { sym := sym, nBal := nAmt, eBal := eAmt, units := u.poolUnits }
   let lp : LP := { sym := sym, addr := signer, units := u.lpUnits, lastUpdated := s.height }
-  pure { s2 with pools := s2.pools.set (poolKey sym) pool, lps := s2.lps.set (lpKey sym signer) lp }
+  pure ((s2.setPool pool).setLP lp)
 
 /-- provider record after an add: a fresh record gets `lpUnits` once (the code zeroes the
     increment after creating it) -/
 def lpAfterAdd (s : St) (sym signer : String) (lpUnits : Nat) : M LP :=
-  match s.lps.get (lpKey sym signer) with
+  match s.getLP sym signer with
   | none => .ok { sym := sym, addr := signer, units := lpUnits, lastUpdated := s.height }
   | some lp => do
       let u ← Uint.add lp.units lpUnits
-      pure { lp with units := u, lastUpdated := s.height }
+      pure { sym := sym, addr := signer, units := u, lastUpdated := s.height }
 
 /-- `AddLiquidity` -/
 def addLiquidity (s : St) (signer sym : String) (nAmt eAmt : Nat) : R St := do
@@ -49,20 +51,20 @@ def addLiquidity (s : St) (signer sym : String) (nAmt eAmt : Nat) : R St := do
   let nB ← liftM (Uint.add pool.nBal nAmt)
   let eB ← liftM (Uint.add pool.eBal eAmt)
   let lp ← liftM (lpAfterAdd s sym signer u.lpUnits)
-  let pool' := { pool with units := u.poolUnits, nBal := nB, eBal := eB }
-  pure { s2 with pools := s2.pools.set (poolKey sym) pool', lps := s2.lps.set (lpKey sym signer) lp }
+  let pool' := { pool with sym := sym, units := u.poolUnits, nBal := nB, eBal := eB }
+  pure ((s2.setPool pool').setLP lp)
 
 /-- `Keeper.RemoveLiquidity`: too-shallow guard, `SetPool`, payout, provider update -/
-def finishRemoval (s : St) (pool' : Pool) (lp : LP) (wN wE lpUnitsLeft nD eD : Nat) : R St := do
+def finishRemoval (s : St) (pool' : Pool) (sym addr : String) (wN wE lpUnitsLeft nD eD : Nat) : R St := do
   guardR (!(decide (eD ≤ wE) || decide (nD ≤ wN)))
-  guardR (decide (wE ≤ s.bal clpAcct lp.sym))
+  guardR (decide (wE ≤ s.bal clpAcct sym))
   guardR (decide (wN ≤ s.bal clpAcct rowan))
-  guardR (!((wE != 0 || wN != 0) && s.params.blocked.contains lp.addr))
-  let s1 ← optR (send s clpAcct lp.addr lp.sym wE)
-  let s2 ← optR (send s1 clpAcct lp.addr rowan wN)
-  let lps' := if lpUnitsLeft = 0 then s2.lps.erase (lpKey lp.sym lp.addr)
-              else s2.lps.set (lpKey lp.sym lp.addr) { lp with units := lpUnitsLeft, lastUpdated := s.height }
-  pure { s2 with pools := s2.pools.set (poolKey lp.sym) pool', lps := lps' }
+  guardR (!((wE != 0 || wN != 0) && s.params.blocked.contains addr))
+  let s1 ← optR (send s clpAcct addr sym wE)
+  let s2 ← optR (send s1 clpAcct addr rowan wN)
+  let s3 := s2.setPool pool'
+  pure (if lpUnitsLeft = 0 then s3.eraseLP sym addr
+        else s3.setLP { sym := sym, addr := addr, units := lpUnitsLeft, lastUpdated := s.height })
 
 /-- pool record after a withdrawal: `units − lp.units + left`, balances minus the payouts -/
 def poolAfterRemoval (pool : Pool) (lpUnits left wN wE : Nat) : M Pool := do
@@ -76,26 +78,26 @@ def poolAfterRemoval (pool : Pool) (lpUnits left wN wE : Nat) : M Pool := do
 def removeLiquidity (s : St) (signer sym : String) (wBasis : Nat) : R St := do
   guardR (s.params.registered.contains sym)
   let pool ← optR (s.pools.get (poolKey sym))
-  let lp ← optR (s.lps.get (lpKey sym signer))
+  let lp ← optR (s.getLP sym signer)
   let msgUnits ← liftM (convWBasisToUnits lp.units wBasis)
   guardR (decide (msgUnits ≤ lp.units))
   let (nD, eD) ← liftM pool.depths
   let (wN, wE, left) ← liftM (calculateWithdrawal pool.units nD eD lp.units wBasis)
   let _ ← liftM (Uint.sub lp.units left)
   let pool' ← liftM (poolAfterRemoval pool lp.units left wN wE)
-  finishRemoval s pool' lp wN wE left nD eD
+  finishRemoval s { pool' with sym := sym } sym signer wN wE left nD eD
 
 /-- `RemoveLiquidityUnits` -/
 def removeLiquidityUnits (s : St) (signer sym : String) (wUnits : Nat) : R St := do
   guardR (s.params.registered.contains sym)
   let pool ← optR (s.pools.get (poolKey sym))
-  let lp ← optR (s.lps.get (lpKey sym signer))
+  let lp ← optR (s.getLP sym signer)
   guardR (decide (wUnits ≤ lp.units))
   let (nD, eD) ← liftM pool.depths
   let (wN, wE, left) ← liftM (calculateWithdrawalFromUnits pool.units nD eD lp.units wUnits)
   let _ ← liftM (Uint.sub lp.units left)
   let pool' ← liftM (poolAfterRemoval pool lp.units left wN wE)
-  finishRemoval s pool' lp wN wE left nD eD
+  finishRemoval s { pool' with sym := sym } sym signer wN wE left nD eD
 
 /-- `SwapOne`: → (output, fee, pool after the swap); `toRowan` = the received asset is native -/
 def swapOne (toRowan : Bool) (x : Nat) (pool : Pool) (r f : Dec) : R (Nat × Nat × Pool) := do
@@ -114,7 +116,11 @@ def swapOne (toRowan : Bool) (x : Nat) (pool : Pool) (r f : Dec) : R (Nat × Nat
 def swapFirstLeg (s : St) (sent : String) (amt : Nat) (f : Dec) : R (St × Nat) := do
   let inPool ← optR (s.pools.get (poolKey sent))
   let (y, _, p') ← swapOne true amt inPool s.params.r f
-  pure ({ s with pools := s.pools.set (poolKey sent) p' }, y)
+  pure (s.setPool { p' with sym := sent }, y)
+
+/-- the first leg is taken only when neither side of the swap is native -/
+def swapRoute (s : St) (sent recv : String) (amt : Nat) (f : Dec) : R (St × Nat) :=
+  if sent ≠ rowan ∧ recv ≠ rowan then swapFirstLeg s sent amt f else .ok (s, amt)
 
 /-- `Swap` → (state, emitted amount) -/
 def swap (s : St) (signer sent recv : String) (amt minRecv : Nat) : R (St × Nat) := do
@@ -124,12 +130,12 @@ def swap (s : St) (signer sent recv : String) (amt minRecv : Nat) : R (St × Nat
   guardR (sent = rowan || s.pools.contains (poolKey sent))
   guardR (decide (amt ≤ s.bal signer sent))
   let s1 ← optR (send s signer clpAcct sent amt)
-  let (s2, amt2) ← if sent ≠ rowan ∧ recv ≠ rowan then swapFirstLeg s1 sent amt f else pure (s1, amt)
+  let (s2, amt2) ← swapRoute s1 sent recv amt f
   let outSym := if recv = rowan then sent else recv
   let outPool ← optR (s2.pools.get (poolKey outSym))
   let (y, _, p') ← swapOne (decide (recv = rowan)) amt2 outPool s.params.r f
   guardR (decide (minRecv ≤ y))
-  let s3 := { s2 with pools := s2.pools.set (poolKey outSym) p' }
+  let s3 := s2.setPool { p' with sym := outSym }
   guardR (!(s3.params.blocked.contains signer))
   let s4 ← optR (send s3 clpAcct signer recv y)
   pure (s4, y)
@@ -138,21 +144,19 @@ def swap (s : St) (signer sent recv : String) (amt minRecv : Nat) : R (St × Nat
     only serve the underflow panics of the handler -/
 def decommissionLoop (pool : Pool) (nD eD : Nat) : List (String × LP) → St → Nat → Nat → Nat → R St
   | [], s, _, _, _ => .ok s
-  | (_, lp) :: rest, s, pu, nB, eB =>
-    if lp.sym ≠ pool.sym then decommissionLoop pool nD eD rest s pu nB eB else do
+  | (k, lp) :: rest, s, pu, nB, eB => do
       let (wN, wE, _) ← liftM (calculateWithdrawal pool.units nD eD lp.units 10000)
       let pu' ← liftM (Uint.sub pu lp.units)
       let nB' ← liftM (Uint.sub nB wN)
       let eB' ← liftM (Uint.sub eB wE)
       guardR (!(s.params.blocked.contains lp.addr))
-      let s1 ← optR (send s clpAcct lp.addr lp.sym wE)
+      let s1 ← optR (send s clpAcct lp.addr pool.sym wE)
       let s2 ← optR (send s1 clpAcct lp.addr rowan wN)
-      decommissionLoop pool nD eD rest { s2 with lps := s2.lps.erase (lpKey lp.sym lp.addr) } pu' nB' eB'
+      decommissionLoop pool nD eD rest (s2.eraseLP pool.sym k) pu' nB' eB'
 
 /-- the provider list `DecommissionPool` obtains from `GetLiquidityProvidersForAssetPaginated`
-    (Limit MaxUint64 − 1 since fix F15): every record of the provider store; the loop skips the
-    records of other pools -/
-def decommissionLps (s : St) (_sym : String) : List (String × LP) := s.lps
+    (Limit MaxUint64 − 1 since fix F15): every provider record of the pool, in store order -/
+def decommissionLps (s : St) (sym : String) : List (String × LP) := s.lpsOf sym
 
 /-- `DecommissionPool` -/
 def decommissionPool (s : St) (signer sym : String) : R St := do
@@ -160,7 +164,7 @@ def decommissionPool (s : St) (signer sym : String) : R St := do
   guardR (s.params.whitelist.contains signer)
   guardR (decide (pool.nBal < poolThreshold))
   let (nD, eD) ← liftM pool.depths
-  let s1 ← decommissionLoop pool nD eD (decommissionLps s sym) s pool.units pool.nBal pool.eBal
+  let s1 ← decommissionLoop { pool with sym := sym } nD eD (decommissionLps s sym) s pool.units pool.nBal pool.eBal
   pure { s1 with pools := s1.pools.erase (poolKey sym) }
 
 /-- `AddLiquidityToRewardsBucket` for one coin (`sdk.Coins` never holds a zero coin: a zero
